@@ -417,6 +417,14 @@ pub fn run(class: &str, seed: u64, p: &Params) -> RunResult {
             let label = format!("burst {}: {}", b, ctx.join(", "));
             let before = report.violations.len();
             probes(&mut s, &mut st, &mut report, &label).await;
+            if class_s == "bigtx" {
+                // Key the finding on the exact input that triggers it.
+                for v in report.violations.iter_mut().skip(before) {
+                    if v.sig.starts_with("probe-failed:") {
+                        v.sig = format!("{}:after-one-transaction-of-8388600-bytes", v.sig);
+                    }
+                }
+            }
             // Attribute panics to the burst.
             for (loc, msg, th) in evlog::take_panics() {
                 report.violate("C15", format!("panic@{}", loc.replace("/verif/repo/", "")), format!("panic in thread {}: {} [{}]", th, msg, label), vec![]);
